@@ -9,6 +9,6 @@ CONSTANTS N = 4
           NC = 3
           N3 = 4
           CaseCap = 4000
-INVARIANTS ProxySortedUnique ChainsDisjoint C04_OneSeriesPerLset C04_ExactWhenIdentical C04_Provenance OutIncreasing
+INVARIANTS ProxySortedUnique FramesRejoined ChainsDisjoint C04_OneSeriesPerLset C04_ExactWhenIdentical C04_Provenance OutIncreasing
 PROPERTY Terminates
 CHECK_DEADLOCK FALSE
